@@ -336,6 +336,75 @@ func runC14(c *Check) {
 	}
 	ruleHeightNotAheadOfDisk(c, p)
 	ruleWriteMethodsWrite(c, p)
+	// ---- R6: a getter returns the record of its own kind
+	c.Doc("C14-R6", "CS: every store method that returns a header, data, signature or state reads (itself or through the store methods it calls) the record kind that holds that value; a value reconstructed from another record is not 'what the latest write stored'.")
+	{
+		kindOfType := map[string]string{
+			"*" + rootPath + "/types.SignedHeader": "getHeaderKey",
+			"*" + rootPath + "/types.Data":         "getDataKey",
+			"*" + rootPath + "/types.Signature":    "getSignatureKey",
+			rootPath + "/types.State":              "getStateKey",
+		}
+		readsOf := map[*ssa.Function]map[string]bool{}
+		for _, o := range ops {
+			if o.method != "Get" || o.ctor == "" {
+				continue
+			}
+			if readsOf[o.fn] == nil {
+				readsOf[o.fn] = map[string]bool{}
+			}
+			readsOf[o.fn][o.ctor] = true
+		}
+		var trans func(fn *ssa.Function, d int, seen map[*ssa.Function]bool) map[string]bool
+		trans = func(fn *ssa.Function, d int, seen map[*ssa.Function]bool) map[string]bool {
+			out := map[string]bool{}
+			if seen[fn] || d > 4 {
+				return out
+			}
+			seen[fn] = true
+			for k := range readsOf[fn] {
+				out[k] = true
+			}
+			for _, cal := range staticCalleesOf(p, fn) {
+				if pk := fnPkg(cal); pk != nil && pk.Pkg.Path() == storePkg {
+					for k := range trans(cal, d+1, seen) {
+						out[k] = true
+					}
+				}
+			}
+			return out
+		}
+		n6 := 0
+		for _, fn := range p.Funcs {
+			pk := fnPkg(fn)
+			if pk == nil || pk.Pkg.Path() != storePkg || fn.Parent() != nil || fn.Signature.Recv() == nil || !strings.HasSuffix(fn.Signature.Recv().Type().String(), "DefaultStore") {
+				continue
+			}
+			res := fn.Signature.Results()
+			var want []string
+			for i := 0; i < res.Len(); i++ {
+				if k, ok := kindOfType[res.At(i).Type().String()]; ok {
+					want = append(want, k)
+				}
+			}
+			if len(want) == 0 {
+				continue
+			}
+			got := trans(fn, 0, map[*ssa.Function]bool{})
+			for _, k := range want {
+				n6++
+				inst := fnShort(fn) + " ⟂ reads " + k
+				if got[k] {
+					c.OK("C14-R6", inst, fnName(fn), p.Pos(fn.Pos()), "the value returned comes from the record kind that stores it", true)
+				} else {
+					c.Bad("C14-R6", inst, fnName(fn), p.Pos(fn.Pos()), fmt.Sprintf("the method returns a value of this kind without reading its record (records read: %v): it returns something other than what the latest write stored for that height/hash", sortedKeys(got)), nil)
+				}
+			}
+		}
+		if n6 < 6 {
+			c.Unk("C14-R6", "getters", "", "", fmt.Sprintf("anchor lost: %d getter results checked", n6))
+		}
+	}
 
 	// ---- R4
 	// the height codec: the store package's func(uint64) []byte / func([]byte) (uint64, error) pair
